@@ -832,6 +832,26 @@ def run_class(name, spec, res, pairs=False):
         import numpy as np
         for p, v in mkkw().items():
             reps = []
+            if isinstance(v, np.ndarray) and v.dtype.kind == "f" and np.any(v == 0.0):
+                # the same point with a negative zero: numerically identical; whether the classes treat it as equal is not stated, but equal => same hash
+                def y_nz(mkkw=mkkw, p=p, v=v):
+                    kw = mkkw(); w = np.array(v, dtype=float); w[w == 0.0] = -0.0; kw[p] = w
+                    return cls(**kw)
+                try:
+                    y_nz()
+                    _check_variant(name, f"{p}(0.0 as -0.0)", lambda: cls(**mkkw()), y_nz, None, res, {"class": name, "base": basek, "representation": [p, "-0.0"]})
+                except Exception:
+                    res.guarded += 1
+                continue
+            if isinstance(v, float) and v == 0.0:
+                def y_nz(mkkw=mkkw, p=p):
+                    kw = mkkw(); kw[p] = -0.0
+                    return cls(**kw)
+                try:
+                    y_nz()
+                    _check_variant(name, f"{p}(0.0 as -0.0)", lambda: cls(**mkkw()), y_nz, None, res, {"class": name, "base": basek, "representation": [p, "-0.0"]})
+                except Exception:
+                    res.guarded += 1
             if isinstance(v, bool) or not isinstance(v, (int, float)):
                 continue
             if isinstance(v, float):
